@@ -1337,4 +1337,125 @@ theorem C04_fn_parse_received_htlc_script_not32 (a : Bool) (rh k1 : Bytes) (i32 
   simp [Gen.FnTxParse.parse_received_htlc_script, xInstrs, xOp, xData, xNum, xEnd, bind, Except.bind, pure, Except.pure, Rs.fail, h32, hm]
 
 
+/-! ### Only the template is accepted (round 10, b2)
+
+`x*_ok_iff`: the instantiated externals succeed exactly on the instruction they expect.  `C04_fn_parse_*_only`: if the
+generated parser returns `Ok r`, the instruction list IS the instance of its BOLT-3 template (every opcode at its
+place, nothing before / between / after, `32` where the size is checked, the CSV tail exactly with anchors) and `r` the
+captured values.  With `C04_fn_parse_*` above (the instance is accepted) this characterises the accepted scripts of
+each of the six parsers of tx.rs on the generated code: a dropped / reordered / changed `expect_*` call, a changed
+opcode or a changed return tuple in the source breaks one of the two directions at the next run. -/
+set_option linter.unusedSimpArgs false
+theorem bind_ok_iff {α β} (x : Rs.M α) (f : α → Rs.M β) (r : β) :
+    (x >>= f) = .ok r ↔ ∃ a, x = .ok a ∧ f a = .ok r := by
+  cases x <;> simp [bind, Except.bind]
+theorem xOp_ok_iff (is v : It) (c : Nat) : xOp is c = .ok v ↔ is = .op c :: v := by
+  rcases is with _ | ⟨⟨c'⟩ | d | _, is⟩ <;> simp only [xOp]
+  · simp
+  · by_cases h : c = c'
+    · subst h; rw [if_pos rfl]; constructor
+      · intro e; cases e; rfl
+      · intro e; cases e; rfl
+    · rw [if_neg h]; constructor
+      · intro e; cases e
+      · intro e; cases e; exact absurd rfl h
+  · simp
+  · simp
+theorem xData_ok_iff (is s : It) (v : List Nat) : xData is = .ok (s, v) ↔ ∃ d, is = .push d :: s ∧ v = nat d := by
+  rcases is with _ | ⟨⟨c'⟩ | d | _, is⟩ <;> simp only [xData]
+  · simp
+  · simp
+  · constructor
+    · intro e; cases e; exact ⟨d, rfl, rfl⟩
+    · rintro ⟨d', e1, e2⟩; cases e1; subst e2; rfl
+  · simp
+theorem xNum_ok_iff (is s : It) (v : Int) : xNum is = .ok (s, v) ↔ ∃ i, is = i :: s ∧ expectNumber i = some v := by
+  rcases is with _ | ⟨i, is⟩ <;> simp only [xNum]
+  · simp
+  · cases h : expectNumber i with
+    | none =>
+      constructor
+      · intro e; cases e
+      · rintro ⟨j, e1, e2⟩; cases e1; rw [h] at e2; cases e2
+    | some n =>
+      constructor
+      · intro e; cases e; exact ⟨i, rfl, h⟩
+      · rintro ⟨j, e1, e2⟩; cases e1; rw [h] at e2; cases e2; rfl
+theorem xEnd_ok_iff (is v : It) : xEnd is = .ok v ↔ is = [] ∧ v = [] := by
+  cases is <;> simp [xEnd] <;> exact eq_comm
+
+theorem ite_fail_ok_iff {α} (b : Bool) (t : String) (x : Rs.M α) (r : α) :
+    (if b = true then Rs.fail t else x) = .ok r ↔ b = false ∧ x = .ok r := by
+  cases b <;> simp [Rs.fail]
+
+/-- only the template: an accepted instruction list IS the template instance, the result its captures -/
+theorem C04_fn_parse_revokeable_redeemscript_only (a : Bool) (is : List Instr) (r : List Nat × Int × List Nat)
+    (h : Gen.FnTxParse.parse_revokeable_redeemscript (ext_Script_instructions := xInstrs) (ext_Instructions_expect_op := xOp) (ext_Instructions_expect_data := xData) (ext_Instructions_expect_script_end := xEnd) (ext_Instructions_expect_number := xNum) is a = .ok r) :
+    ∃ (rk : Bytes) (i_n : Instr) (n : Int) (dk : Bytes), is = [.op 0x63, .push rk, .op 0x67, i_n, .op 0xb2, .op 0x75, .push dk, .op 0x68, .op 0xac] ∧ expectNumber i_n = some n ∧ r = (nat rk, n, nat dk) := by
+  simp only [Gen.FnTxParse.parse_revokeable_redeemscript, xInstrs, bind_ok_iff, Prod.exists, xOp_ok_iff, xData_ok_iff, xNum_ok_iff, xEnd_ok_iff, pure, Except.pure, Except.ok.injEq] at h
+  obtain ⟨_, rfl, _, _, ⟨rk, rfl, rfl⟩, _, rfl, _, _, ⟨i_n, rfl, h_n⟩, _, rfl, _, rfl, _, _, ⟨dk, rfl, rfl⟩, _, rfl, _, rfl, _, ⟨rfl, rfl⟩, rfl⟩ := h
+  exact ⟨_, _, _, _, rfl, h_n, rfl⟩
+
+/-- only the template: an accepted instruction list IS the template instance, the result its captures -/
+theorem C04_fn_parse_to_broadcaster_script_only (ci : Gen.FnTxParse.CommitmentInfo) (is : List Instr) (r : List Nat × Int × List Nat)
+    (h : Gen.FnTxParse.CommitmentInfo.parse_to_broadcaster_script (ext_Script_instructions := xInstrs) (ext_Instructions_expect_op := xOp) (ext_Instructions_expect_data := xData) (ext_Instructions_expect_script_end := xEnd) (ext_Instructions_expect_number := xNum) ci is = .ok r) :
+    ∃ (rk : Bytes) (i_n : Instr) (n : Int) (dk : Bytes), is = [.op 0x63, .push rk, .op 0x67, i_n, .op 0xb2, .op 0x75, .push dk, .op 0x68, .op 0xac] ∧ expectNumber i_n = some n ∧ r = (nat rk, n, nat dk) := by
+  simp only [Gen.FnTxParse.CommitmentInfo.parse_to_broadcaster_script, xInstrs, bind_ok_iff, Prod.exists, xOp_ok_iff, xData_ok_iff, xNum_ok_iff, xEnd_ok_iff, pure, Except.pure, Except.ok.injEq] at h
+  obtain ⟨_, rfl, _, _, ⟨rk, rfl, rfl⟩, _, rfl, _, _, ⟨i_n, rfl, h_n⟩, _, rfl, _, rfl, _, _, ⟨dk, rfl, rfl⟩, _, rfl, _, rfl, _, ⟨rfl, rfl⟩, rfl⟩ := h
+  exact ⟨_, _, _, _, rfl, h_n, rfl⟩
+
+/-- only the template: an accepted instruction list IS the template instance, the result its captures -/
+theorem C04_fn_parse_to_countersigner_delayed_script_only (ci : Gen.FnTxParse.CommitmentInfo) (is : List Instr) (r : List Nat)
+    (h : Gen.FnTxParse.CommitmentInfo.parse_to_countersigner_delayed_script (ext_Script_instructions := xInstrs) (ext_Instructions_expect_op := xOp) (ext_Instructions_expect_data := xData) (ext_Instructions_expect_script_end := xEnd) ci is = .ok r) :
+    ∃ (k : Bytes), is = [.push k, .op 0xad, .op 0x51, .op 0xb2] ∧ r = nat k := by
+  simp only [Gen.FnTxParse.CommitmentInfo.parse_to_countersigner_delayed_script, xInstrs, bind_ok_iff, Prod.exists, xOp_ok_iff, xData_ok_iff, xNum_ok_iff, xEnd_ok_iff, pure, Except.pure, Except.ok.injEq] at h
+  obtain ⟨_, _, ⟨k, rfl, rfl⟩, _, rfl, _, rfl, _, rfl, _, ⟨rfl, rfl⟩, rfl⟩ := h
+  exact ⟨_, rfl, rfl⟩
+
+/-- only the template: an accepted instruction list IS the template instance, the result its captures -/
+theorem C04_fn_parse_anchor_script_only (ci : Gen.FnTxParse.CommitmentInfo) (is : List Instr) (r : List Nat)
+    (h : Gen.FnTxParse.CommitmentInfo.parse_anchor_script (ext_Script_instructions := xInstrs) (ext_Instructions_expect_op := xOp) (ext_Instructions_expect_data := xData) (ext_Instructions_expect_script_end := xEnd) ci is = .ok r) :
+    ∃ (k : Bytes), is = [.push k, .op 0xac, .op 0x73, .op 0x64, .op 0x60, .op 0xb2, .op 0x68] ∧ r = nat k := by
+  simp only [Gen.FnTxParse.CommitmentInfo.parse_anchor_script, xInstrs, bind_ok_iff, Prod.exists, xOp_ok_iff, xData_ok_iff, xNum_ok_iff, xEnd_ok_iff, pure, Except.pure, Except.ok.injEq] at h
+  obtain ⟨_, _, ⟨k, rfl, rfl⟩, _, rfl, _, rfl, _, rfl, _, rfl, _, rfl, _, rfl, _, ⟨rfl, rfl⟩, rfl⟩ := h
+  exact ⟨_, rfl, rfl⟩
+
+/-- only the template (both channel types): an accepted instruction list IS the template instance -/
+theorem C04_fn_parse_received_htlc_script_only (a : Bool) (is : List Instr) (r : List Nat × List Nat × List Nat × List Nat × Int)
+    (h : Gen.FnTxParse.parse_received_htlc_script (ext_Script_instructions := xInstrs) (ext_Instructions_expect_op := xOp) (ext_Instructions_expect_data := xData) (ext_Instructions_expect_script_end := xEnd) (ext_Instructions_expect_number := xNum) is a = .ok r) :
+    ∃ (rh : Bytes) (k1 : Bytes) (i_32 : Instr) (ph : Bytes) (k2 : Bytes) (i_cltv : Instr) (cltv : Int), is = [.op 0x76, .op 0xa9, .push rh, .op 0x87, .op 0x63, .op 0xac, .op 0x67, .push k1, .op 0x7c, .op 0x82, i_32, .op 0x87, .op 0x63, .op 0xa9, .push ph, .op 0x88, .op 0x52, .op 0x7c, .push k2, .op 0x52, .op 0xae, .op 0x67, .op 0x75, i_cltv, .op 0xb1, .op 0x75, .op 0xac, .op 0x68] ++ csvTail a ++ [.op 0x68] ∧ expectNumber i_32 = some 32 ∧ expectNumber i_cltv = some cltv ∧ r = (nat rh, nat k1, nat ph, nat k2, cltv) := by
+  cases a
+  ·
+    simp only [Gen.FnTxParse.parse_received_htlc_script, xInstrs, bind_ok_iff, Prod.exists, xOp_ok_iff, xData_ok_iff, xNum_ok_iff, xEnd_ok_iff, ite_fail_ok_iff, pure, Except.pure, Except.ok.injEq, if_true, if_false, Bool.false_eq_true] at h
+    obtain ⟨_, rfl, _, rfl, _, _, ⟨rh, rfl, rfl⟩, _, rfl, _, rfl, _, rfl, _, rfl, _, _, ⟨k1, rfl, rfl⟩, _, rfl, _, rfl, _, v32, ⟨i_32, rfl, h_32⟩, hb, _, rfl, _, rfl, _, rfl, _, _, ⟨ph, rfl, rfl⟩, _, rfl, _, rfl, _, rfl, _, _, ⟨k2, rfl, rfl⟩, _, rfl, _, rfl, _, rfl, _, rfl, _, _, ⟨i_cltv, rfl, h_cltv⟩, _, rfl, _, rfl, _, rfl, _, rfl, _, rfl, _, rfl, _, ⟨rfl, rfl⟩, rfl⟩ := h
+    have e32 : v32 = 32 := by simpa using hb
+    subst e32
+    exact ⟨_, _, _, _, _, _, _, rfl, h_32, h_cltv, rfl⟩
+  ·
+    simp only [Gen.FnTxParse.parse_received_htlc_script, xInstrs, bind_ok_iff, Prod.exists, xOp_ok_iff, xData_ok_iff, xNum_ok_iff, xEnd_ok_iff, ite_fail_ok_iff, pure, Except.pure, Except.ok.injEq, if_true, if_false, Bool.false_eq_true] at h
+    obtain ⟨_, rfl, _, rfl, _, _, ⟨rh, rfl, rfl⟩, _, rfl, _, rfl, _, rfl, _, rfl, _, _, ⟨k1, rfl, rfl⟩, _, rfl, _, rfl, _, v32, ⟨i_32, rfl, h_32⟩, hb, _, rfl, _, rfl, _, rfl, _, _, ⟨ph, rfl, rfl⟩, _, rfl, _, rfl, _, rfl, _, _, ⟨k2, rfl, rfl⟩, _, rfl, _, rfl, _, rfl, _, rfl, _, _, ⟨i_cltv, rfl, h_cltv⟩, _, rfl, _, rfl, _, rfl, _, rfl, _, rfl, _, rfl, _, rfl, _, rfl, _, rfl, _, ⟨rfl, rfl⟩, rfl⟩ := h
+    have e32 : v32 = 32 := by simpa using hb
+    subst e32
+    exact ⟨_, _, _, _, _, _, _, rfl, h_32, h_cltv, rfl⟩
+
+/-- only the template (both channel types): an accepted instruction list IS the template instance -/
+theorem C04_fn_parse_offered_htlc_script_only (a : Bool) (is : List Instr) (r : List Nat × List Nat × List Nat × List Nat)
+    (h : Gen.FnTxParse.parse_offered_htlc_script (ext_Script_instructions := xInstrs) (ext_Instructions_expect_op := xOp) (ext_Instructions_expect_data := xData) (ext_Instructions_expect_script_end := xEnd) (ext_Instructions_expect_number := xNum) is a = .ok r) :
+    ∃ (rh : Bytes) (k1 : Bytes) (i_32 : Instr) (k2 : Bytes) (ph : Bytes), is = [.op 0x76, .op 0xa9, .push rh, .op 0x87, .op 0x63, .op 0xac, .op 0x67, .push k1, .op 0x7c, .op 0x82, i_32, .op 0x87, .op 0x64, .op 0x75, .op 0x52, .op 0x7c, .push k2, .op 0x52, .op 0xae, .op 0x67, .op 0xa9, .push ph, .op 0x88, .op 0xac, .op 0x68] ++ csvTail a ++ [.op 0x68] ∧ expectNumber i_32 = some 32 ∧ r = (nat rh, nat k1, nat k2, nat ph) := by
+  cases a
+  ·
+    simp only [Gen.FnTxParse.parse_offered_htlc_script, xInstrs, bind_ok_iff, Prod.exists, xOp_ok_iff, xData_ok_iff, xNum_ok_iff, xEnd_ok_iff, ite_fail_ok_iff, pure, Except.pure, Except.ok.injEq, if_true, if_false, Bool.false_eq_true] at h
+    obtain ⟨_, rfl, _, rfl, _, _, ⟨rh, rfl, rfl⟩, _, rfl, _, rfl, _, rfl, _, rfl, _, _, ⟨k1, rfl, rfl⟩, _, rfl, _, rfl, _, v32, ⟨i_32, rfl, h_32⟩, hb, _, rfl, _, rfl, _, rfl, _, rfl, _, rfl, _, _, ⟨k2, rfl, rfl⟩, _, rfl, _, rfl, _, rfl, _, rfl, _, _, ⟨ph, rfl, rfl⟩, _, rfl, _, rfl, _, rfl, _, rfl, _, rfl, _, ⟨rfl, rfl⟩, rfl⟩ := h
+    have e32 : v32 = 32 := by simpa using hb
+    subst e32
+    exact ⟨_, _, _, _, _, rfl, h_32, rfl⟩
+  ·
+    simp only [Gen.FnTxParse.parse_offered_htlc_script, xInstrs, bind_ok_iff, Prod.exists, xOp_ok_iff, xData_ok_iff, xNum_ok_iff, xEnd_ok_iff, ite_fail_ok_iff, pure, Except.pure, Except.ok.injEq, if_true, if_false, Bool.false_eq_true] at h
+    obtain ⟨_, rfl, _, rfl, _, _, ⟨rh, rfl, rfl⟩, _, rfl, _, rfl, _, rfl, _, rfl, _, _, ⟨k1, rfl, rfl⟩, _, rfl, _, rfl, _, v32, ⟨i_32, rfl, h_32⟩, hb, _, rfl, _, rfl, _, rfl, _, rfl, _, rfl, _, _, ⟨k2, rfl, rfl⟩, _, rfl, _, rfl, _, rfl, _, rfl, _, _, ⟨ph, rfl, rfl⟩, _, rfl, _, rfl, _, rfl, _, rfl, _, rfl, _, rfl, _, rfl, _, rfl, _, ⟨rfl, rfl⟩, rfl⟩ := h
+    have e32 : v32 = 32 := by simpa using hb
+    subst e32
+    exact ⟨_, _, _, _, _, rfl, h_32, rfl⟩
+
+
+
 end VlsModel.Props.C04Fn
